@@ -35,3 +35,34 @@ Fixpoint poll_by_shape (sh : list (list bool * list pev * pend)) (k : stage) (o 
   | [] => None
   | en :: r => match run_entry k o en s with Some x => Some x | None => poll_by_shape r k o s end
   end.
+
+(** ** the same shape with another stage acting during the registration ([Async.poll_inj]): the injected step runs right after the
+       [PRegister] event - that is where [register_waker] hands control to foreign code ([Waker::clone]) *)
+Fixpoint run_events_inj (k : stage) (o : op) (d : aop) (evs : list pev) (outs : list bool) (s : astate) (acc : list lev) (last : out)
+  (xi : option out) : option (astate * out * list lev * option out) :=
+  match evs with
+  | [] => match outs with [] => Some (s, last, acc, xi) | _ => None end
+  | PAttempt :: r =>
+      match outs with
+      | ok :: outs' =>
+          let '(m1, (x, e)) := step (base s) o in
+          if Bool.eqb (negb (refused x)) ok then run_events_inj k o d r outs' (set_base m1 s) (acc ++ e) x xi else None
+      | [] => None
+      end
+  | PRegister :: r =>
+      let '(si, (x, e)) := astep (register k s) d in
+      run_events_inj k o d r outs si (acc ++ e) last (Some x)
+  end.
+
+Definition run_entry_inj (k : stage) (o : op) (d : aop) (en : list bool * list pev * pend) (s : astate) :=
+  let '(outs, evs, e) := en in
+  match run_events_inj k o d evs outs s [] OUnit None with
+  | Some (s', x, l, xi) => Some (s', (match e with PReady => x | PPending => OPending end, l), xi)
+  | None => None
+  end.
+
+Fixpoint poll_inj_by_shape (sh : list (list bool * list pev * pend)) (k : stage) (o : op) (d : aop) (s : astate) :=
+  match sh with
+  | [] => None
+  | en :: r => match run_entry_inj k o d en s with Some x => Some x | None => poll_inj_by_shape r k o d s end
+  end.
